@@ -122,11 +122,18 @@ def gen_case(rng, tier):
     k = rng.randint(1, nproto)
     nq = rng.randint(1, 3)
     Q = [[dy(rng, -2, 2, 8) + (16.0 * rng.randint(-1, 1) if kind == "sites" else 0.0) for _ in range(d)] for _ in range(nq)]
+    offset = None
+    if kind != "sites" and kernel != "poly" and rng.random() < 0.2:
+        # un-centred cases: a large common offset (features around 1024 .. 3072 with a spread of a few units); pairwise
+        # differences are still exact in float32, an expanded |a|^2 - 2ab + |b|^2 is not
+        offset = [rng.choice([1024.0, 2048.0, -3072.0, 2560.0]) for _ in range(d)]
+        X = [[v + o for v, o in zip(x, offset)] for x in X]
+        Q = [[v + o for v, o in zip(x, offset)] for x in Q]
     distance = rng.choice([None, None, "euclidean", "manhattan", "chebyshev"])
     if kernel == "poly" and rng.random() < 0.85:
         distance = None        # the kernel-induced distance needs k(p,p) of each prototype: only interesting off a constant diagonal
     return dict(method=method, kind=kind, X=X, gamma=gamma, kernel=kernel, proj=proj, np=nproto, bs=bs, bs2=bs2, k=k, Q=Q,
-                labels=[rng.randint(0, 9) for _ in range(n)], distance=distance)
+                labels=[rng.randint(0, 9) for _ in range(n)], distance=distance, offset=offset)
 
 
 def generate(rng, tier):
@@ -157,6 +164,7 @@ def distribution(cases):
                 projection=core.hist(c["proj"] is not None for c in cases),
                 kernel_fn=core.hist(c.get("kernel") for c in cases),
                 distance=core.hist(c["distance"] for c in cases),
+                uncentred_offset=core.hist(c.get("offset") is not None for c in cases),
                 full_selection_compared=core.hist(g is not None and g["ncmp"] == c["np"] for g, c in zip(guards, cases)),
                 steps_compared=sum(g["ncmp"] for g in guards if g), steps_total=sum(c["np"] for c in cases),
                 exact_tie_steps_compared=sum(g["tie_steps"] for g in guards if g),
